@@ -195,7 +195,8 @@ def replay_stack_init(c):
     """natively: a program that returns a stack slot it never wrote, run before and after a program that fills its stack; the interpreter returns 0 every time"""
     from ref import insn
     eng = c.get('engine'); d = Driver.get('dev', features=('std', 'cranelift'))
-    R = insn(0x79, 0, 10, -8) + insn(0x95)
+    # reader: OR of all 64 stack slots it never wrote (robust against any single slot happening to hold 0)
+    R = insn(0xb7, 0) + b''.join(insn(0x79, 1, 10, -8 * k) + insn(0x4f, 0, 1) for k in range(1, 65)) + insn(0x95)
     W = b''.join(insn(0x7a, 10, 0, -8 * k, 0x1234) for k in range(1, 65)) + insn(0xb7, 0) + insn(0x95)
     outs = []
     for p in (R, W, R, R):
